@@ -85,6 +85,10 @@ func (x *extractor) irExpr(e ast.Expr) string {
 			}
 			return fmt.Sprintf("(.int %d)", n)
 		}
+		if v.Kind == token.FLOAT {
+			// a floating-point literal: a pseudo-call the world gives a value to (no float arithmetic in the interpreter)
+			return "(.call \"float.lit\" E[(.str " + lstr(v.Value) + ")])"
+		}
 		return "(.unsupported " + lstr(v.Value) + ")"
 	case *ast.BinaryExpr:
 		return "(.bin " + lstr(v.Op.String()) + " " + x.irExpr(v.X) + " " + x.irExpr(v.Y) + ")"
